@@ -169,6 +169,7 @@ def call_repo(I, fv, args, kwargs, st, ctx):
     st.env = env
     st.depth += 1
     out = []
+    base_len = len(st.pc)
     for (q, oc) in I.exec_block(fd.body, st, cctx):
         q.env = dict(saved_env)
         q.depth -= 1
@@ -181,7 +182,74 @@ def call_repo(I, fv, args, kwargs, st, ctx):
         else:
             raise OutOfReach("break/continue escaped function")
     I.stats["paths"] += len(out)
+    if len(out) > 1 and not ctx.get("verifying") == qual:
+        out = merge_results(I, out, base_len)
     return out
+
+
+def _sig(v):
+    import z3 as _z3
+    if isinstance(v, (str, int, float, bool, type(None))):
+        return v
+    if isinstance(v, Conc):
+        return ("c", type(v.py).__name__, repr(v.py))
+    if isinstance(v, Sym):
+        return ("s", v.t.get_id())
+    if isinstance(v, BoolV):
+        return ("b", v.b.get_id())
+    if isinstance(v, Ref):
+        return ("r", v.oid)
+    if isinstance(v, ClsV):
+        return ("k", v.name)
+    if isinstance(v, Raise):
+        return ("x", v.cls, v.origin)
+    if isinstance(v, (list, tuple)):
+        return tuple(_sig(x) for x in v)
+    if isinstance(v, dict):
+        return tuple(sorted(((str(k), _sig(x)) for k, x in v.items()), key=lambda kv: kv[0]))
+    if isinstance(v, _z3.ExprRef):
+        return ("z", v.get_id())
+    return ("id", id(v))
+
+
+def _state_sig(q):
+    hs = []
+    for oid in sorted(q.heap):
+        h = q.heap[oid]
+        hs.append((oid, h.kind, h.cls, _sig(h.fields),
+                   None if h.seq is None else h.seq.get_id(),
+                   None if h.keys is None else h.keys.get_id(),
+                   None if h.vals is None else h.vals.get_id(),
+                   None if h.ckeys is None else tuple(h.ckeys)))
+    return (tuple(hs), _sig(q.ghost), _sig(q.env), tuple(q.notes))
+
+
+def merge_results(I, out, base_len):
+    """Join paths that return the same value in the same heap: one state whose path condition
+    is the disjunction of theirs (sound and complete; keeps sequential validators additive
+    instead of multiplicative in the number of paths)."""
+    groups = {}
+    order = []
+    for (q, v) in out:
+        key = (_sig(v), _state_sig(q))
+        if key not in groups:
+            groups[key] = []
+            order.append(key)
+        groups[key].append((q, v))
+    merged = []
+    for key in order:
+        grp = groups[key]
+        if len(grp) == 1:
+            merged.append(grp[0])
+            continue
+        q0, v0 = grp[0]
+        suffixes = [q.pc[base_len:] for (q, _) in grp]
+        if any(len(sf) == 0 for sf in suffixes):
+            q0.pc = q0.pc[:base_len]
+        else:
+            q0.pc = q0.pc[:base_len] + [z3.simplify(z3.Or([z3.And(sf) if len(sf) > 1 else sf[0] for sf in suffixes]))]
+        merged.append((q0, v0))
+    return merged
 
 
 def call_lambda(I, fv, args, kwargs, st, ctx):
